@@ -207,6 +207,10 @@ def element(draw, kind, clean=False):
             kwargs[n] = next(vals)
     if leaf and draw(st.integers(0, 3)) == 0 and (positional or sig["va"]) and args:
         args[0] = {"pool": next(vals)}  # composite-like: a pool instance as first positional argument
+    if not leaf and len(args) >= 2 and draw(st.integers(0, 2)) == 0:
+        # an ordinary parameter of a controller/decorator that takes a pool (a fallback pool, say) - not the first one, where
+        # a pool instance is taken for an attempt to pass the target
+        args[draw(st.integers(1, len(args) - 1))] = {"pool": next(vals)}
     mode = "bindable" if clean else draw(st.sampled_from(["bindable"] * 7 + ["incomplete", "too-many", "unknown", "dup-pos-kw", "dup-calls", "target-kw", "target-pool"]))
     if mode == "incomplete":
         required_kw = [n for n, d in positional[m:] + sig["ko"] if not d and n in kwargs]
